@@ -49,7 +49,9 @@ class JumpWriteHandler(AbstractWriteHandler):
         logger.debug("Handling a jump; (%s)...", self.start_vertex["op"])
         op: SsbLabelJump = self.start_vertex["op"]
         # TODO: Writing this source map entry may be confusing, if no jump is written next (by the label handler)...
-        self.decompiler.source_map_add_opcode(op.offset)
+        # (for_edge: the jump may stand for an edge of an operation that was written already, like the header of an if
+        # whose break_loop / continue turned out to be outside of the loop)
+        self.decompiler.source_map_add_opcode_for_edge(op.offset)
         # Nothing to do, this is dealt with, when processing the label after this
         # either we print a jump there, or we just proceed.
         exits = self.start_vertex.out_edges()
